@@ -123,7 +123,7 @@ var c10HostileKeys = []string{
 }
 
 func runC10(c *Ctx) {
-	nSeq := 25
+	nSeq := 14
 	if c.Thorough() {
 		nSeq = 400
 	}
